@@ -27,6 +27,9 @@ pub fn pad_align_to(value: usize, align_to: usize) -> (r: usize)
 pub enum HItem {
     Str(Seq<char>),
     Usize(nat),
+    /// a fixed-width integer write of `width` bytes (not part of any published recipe:
+    /// present so that code feeding one is decided rather than rejected)
+    Fixed(nat, nat),
 }
 
 #[verifier::external_trait_specification]
@@ -34,6 +37,14 @@ pub trait ExHasher {
     type ExternalTraitSpecificationFor: core::hash::Hasher;
     fn write_usize(&mut self, i: usize)
         ensures feed(final(self)) == feed(old(self)).push(HItem::Usize(i as nat));
+    fn write_u8(&mut self, i: u8)
+        ensures feed(final(self)) == feed(old(self)).push(HItem::Fixed(1, i as nat));
+    fn write_u16(&mut self, i: u16)
+        ensures feed(final(self)) == feed(old(self)).push(HItem::Fixed(2, i as nat));
+    fn write_u32(&mut self, i: u32)
+        ensures feed(final(self)) == feed(old(self)).push(HItem::Fixed(4, i as nat));
+    fn write_u64(&mut self, i: u64)
+        ensures feed(final(self)) == feed(old(self)).push(HItem::Fixed(8, i as nat));
 }
 
 pub uninterp spec fn feed<H: ?Sized>(h: &H) -> Seq<HItem>;
